@@ -574,6 +574,51 @@ pub fn random_term(rng: &mut Rng, d: usize, pool: &Pool) -> T {
     }
 }
 
+/// Unions / intersections whose operands are related by inclusion (directly or under complement):
+/// the constructors prune subsumed operands with the syntactic inclusion test, and derivatives of
+/// such terms create new unions of the same kind.
+pub fn subsumption_family(pool: &Pool) -> Vec<T> {
+    let (a, bb) = (T::Chr(pool.a), T::Chr(pool.b));
+    let ab = T::Rng(pool.a, pool.b);
+    let abc = T::Rng(pool.a, pool.c);
+    let sab = T::Str(vec![pool.a, pool.b]);
+    let sabc = T::Str(vec![pool.a, pool.b, pool.c]);
+    let pre = T::Cat2(b(&sab), b(&T::All));
+    let suf = T::Cat2(b(&T::All), b(&bb));
+    let c_ab = T::Cat2(b(&T::Chr(pool.c)), b(&T::Alt2(b(&a), b(&bb))));
+    let c_a = T::Cat2(b(&T::Chr(pool.c)), b(&a));
+    let items: Vec<T> = vec![
+        a.clone(), bb.clone(), ab.clone(), abc.clone(), sab.clone(), sabc.clone(), pre.clone(), suf.clone(), c_ab, c_a,
+        T::Star(b(&a)), T::Plus(b(&a)), T::Opt(b(&a)), T::AllChar, T::Alt2(b(&a), b(&bb)), T::Eps,
+        T::Loop(b(&ab), 1, Some(2)), T::Star(b(&ab)),
+    ];
+    let mut v = vec![];
+    for x in &items {
+        for y in &items {
+            if x == y {
+                continue;
+            }
+            let (nx, ny) = (T::Not(b(x)), T::Not(b(y)));
+            v.push(T::Alt2(b(&nx), b(&ny)));
+            v.push(T::And2(b(&nx), b(&ny)));
+            v.push(T::Alt2(b(x), b(&ny)));
+            v.push(T::And2(b(&nx), b(y)));
+            v.push(T::Alt2(b(x), b(y)));
+            v.push(T::And2(b(x), b(y)));
+        }
+    }
+    for x in &items {
+        for y in &items {
+            // unions that only arise as derivatives: c . (x | ~y)  and  ~(c.x) | ~(c.y)
+            let c = T::Chr(pool.c);
+            v.push(T::Alt2(Box::new(T::Not(Box::new(T::Cat2(b(&c), b(x))))), Box::new(T::Not(Box::new(T::Cat2(b(&c), b(y)))))));
+            v.push(T::AltL(vec![T::Not(b(x)), T::Not(b(y)), a.clone()]));
+            v.push(T::AndL(vec![T::Not(b(x)), T::Not(b(y)), T::All]));
+        }
+    }
+    v
+}
+
 /// Terms that denote the empty language without being syntactically empty, and terms built on
 /// them (C05, C18): intersections of disjoint languages, complements of universal languages
 /// built the long way, loops and concatenations over such operands.
